@@ -92,8 +92,9 @@ public:
      */
     static suspend_point<void> resume_chain_set_ready(awaiter_collector &chain, awaiter &ready_state) {
         //acquire memory order, we need to see modifications made by other thread during registration
-        //this is first operation of the thread of awaiters
-        return resume_chain_lk(chain.exchange(&ready_state, std::memory_order_acquire));
+        //release memory order, because this operation publishes the result (set before the call)
+        //to threads which learn about the ready state from the value stored here
+        return resume_chain_lk(chain.exchange(&ready_state, std::memory_order_acq_rel));
     }
     static suspend_point<void> resume_chain_lk(awaiter *chain) {
         suspend_point<void> ret;
